@@ -13,6 +13,8 @@ From Coq Require Import NArith ZArith List.
 From Acme.C08 Require Import DbcAst Chars DbcLex DbcParse DbcWrite Expr ProofsLex ProofsLexPrint ProofsFormat
   ProofsSections ProofsFile ProofsPok ProofsGood ProofsRoundTrip Examples.
 Import ListNotations.
+From Acme.C10 Require DbcDoc Export.
+From Acme.C08 Require BridgeC10.
 
 (* every scan consumes a prefix of the remaining text *)
 Theorem scan_consumes_prefix : forall ud c r k w rest, scan_after ud c r = (k, w, rest) -> r = w ++ rest.
@@ -133,3 +135,35 @@ Theorem sample_round_trip :
   /\ parse no_ud toy_prs true (write toy_fmt true sample_file) = OOk (norm_file toy_fmt true sample_file).
 Proof. exact Examples.sample_round_trip. Qed.
 Print Assumptions sample_round_trip.
+
+(* ---- bridge to the C10/C11 stream (coq/C08/BridgeC10.v) ----
+   Their model of the exporter's document (Acme.C10.DbcDoc.doc) embedded into this AST; their
+   "names_ok"-style proviso stated on their type; and their ASSUMED effect of dbc.Write + dbc.Parse
+   (Acme.C10.Export.text_roundtrip) derived from parse_write. *)
+Theorem exporter_expressible : forall fb up, (forall f, fin (fb f) = true) ->
+  forall d, BridgeC10.doc_ok up d -> wf_file up (BridgeC10.doc_to_file fb d).
+Proof. exact BridgeC10.doc_to_file_wf. Qed.
+Print Assumptions exporter_expressible.
+
+Theorem exporter_sections_round_trip : forall (fb : DbcDoc.fl -> N) ud fmt prs hex,
+  ud_ok ud -> oracle_ok fmt prs -> (forall f, fin (fb f) = true) ->
+  forall d, BridgeC10.doc_ok (peek_digits ud) d ->
+  parse ud prs hex (write fmt hex (BridgeC10.doc_to_file fb d)) = OOk (norm_file fmt hex (BridgeC10.doc_to_file fb d)).
+Proof. exact BridgeC10.exporter_round_trip. Qed.
+Print Assumptions exporter_sections_round_trip.
+
+(* ... and that result is their text_roundtrip d (decimal mode), under the two facts about the
+   'f' text of integral doubles up to 2^53 that their model uses *)
+Theorem text_roundtrip_is_norm : forall (fb : DbcDoc.fl -> N) (fmt : N -> str),
+  (forall f, DbcDoc.fl_is_decimal f = true -> has_dot (fmt (fb f)) = true) ->
+  (forall f, DbcDoc.fl_is_decimal f = false -> (Z.abs (Export.fl_to_Z f) <= 9007199254740992)%Z ->
+             fmt (fb f) = format_int (Export.fl_to_Z f)) ->
+  forall d, BridgeC10.defs_small d ->
+  let n := norm_file fmt false (BridgeC10.doc_to_file fb d) in
+  let t := BridgeC10.doc_to_file fb (Export.text_roundtrip d) in
+  f_afs n = f_afs t /\ f_avs n = f_avs t /\
+  f_bu n = f_bu t /\ f_vts n = f_vts t /\ f_msgs n = f_msgs t /\ f_cms n = f_cms t /\ f_ads n = f_ads t /\
+  f_ves n = f_ves t /\ f_xms n = f_xms t /\
+  f_txs n = [] /\ f_evs n = [] /\ f_eds n = [] /\ f_sts n = [] /\ f_srs n = [] /\ f_sgs n = [] /\ f_svs n = [].
+Proof. exact BridgeC10.text_roundtrip_is_norm. Qed.
+Print Assumptions text_roundtrip_is_norm.
